@@ -43,6 +43,36 @@ def check(run):
         if "C06-catalog" not in run.rules:
             run.rule("C06-catalog", "the registration catalogs stay correctly linked whichever element (first, interior, last, only) is removed and whatever is appended afterwards", floor=30)
         crules.list_rules(run, "C06-catalog", "C06-catalog", "C06-catalog", "C06-catalog", ast)
+    # the pre-generated tables: do they depend on the order of registration of the program that DECODES them?
+    from . import c13
+    from .. import astq, witness
+    r5 = "C06-decode"
+    run.rule(r5, "decode_dispatch_data identifies the classes, methods and definitions its tables refer to (not merely by their position in the catalogs of the running program)", floor=1)
+    pols = ["release", "debug"]
+    src13, _ = witness.call_matrix(pols, ["rr"], witness.update_block(pols))
+    ast13 = astq.Ast(common.ast_json(run, src13, "c13_ast_nd", ndebug=True, funcs=c13.FUNCS))
+    decs = [f for f in ast13.funcs if f.get("body") and "decode_dispatch_data<" in f["name"]]
+    if not decs:
+        run.broken.append("C06-decode: decode_dispatch_data is not instantiated in the unit")
+    for f in decs:
+        # an identity check reads what names an item - its type id / method type / name - outside the trace output
+        ident = []
+        for n in astq.walk(f["body"]):
+            if n.get("k") == "MemberExpr" and n.get("member") in ("type", "method_type", "name", "type_ids"):
+                ident.append(n)
+        def in_trace(n):
+            # statements that only feed the trace stream do not count
+            for st in astq.walk(f["body"]):
+                if st.get("k") in ("CXXOperatorCallExpr",) and st.get("oop") == "<<" and any(x is n for x in astq.walk(st)) and any(
+                        (astq.refname(y) or "").endswith("trace") or (y.get("k") == "MemberExpr" and y.get("member") == "trace") for y in astq.walk(st)):
+                    return True
+            return False
+        used = [n for n in ident if not in_trace(n)]
+        ok = bool(used)
+        run.instance(r5, "%s: items are matched with the tables by identity" % crules.short(f)[:80], (f["file"], f["line"]), ok=ok)
+        if not ok:
+            run.violation(r5, "decode_dispatch_data|positional-identity", "the decoder takes the n-th method / definition / class of the RUNNING program's catalogs for the n-th one the generator saw and never looks at what it is (type id, name): "
+                          "a program that links the same translation units in another order than the generator silently installs another method's or definition's cells", (f["file"], f["line"]))
     run.assumptions += ["C06 quantifies over permutations of the registration lists (2-safety): the rules are the structural reasons a position cannot leak at the "
                         "sites where candidates are compared or records merged; equality of outcomes over all permutations is not mechanised",
                         "best() folds a relation that is not transitive for unrelated positions: order-independence of the fold is NOT decided"]
